@@ -119,7 +119,7 @@ impl Property for C10 {
         700
     }
     fn random_cases(&self, tier: Tier) -> u64 {
-        tier.pick(8_000, 150_000)
+        tier.pick(25_000, 150_000)
     }
     fn run(&self, t: &mut Tape, ctx: &mut CaseCtx) -> Verdict {
         let twins = crate::engine::gen_version() >= 2 && t.chance(1, 6);
